@@ -26,17 +26,42 @@ open XC XC.C38
 /-- the intended rule: both stamps are non-negative int64 values (or ValidBefore = infinity) and
     ValidAfter ≤ now < ValidBefore -/
 def timeSpec (now : Int) (va vb : Nat) : Prop :=
-  va < 2 ^ 63 ∧ (va : Int) ≤ now ∧ (vb = certTimeInfinity ∨ (vb < 2 ^ 63 ∧ now < (vb : Int)))
+  va < 9223372036854775808 ∧ (va : Int) ≤ now ∧
+    (vb = certTimeInfinity ∨ (vb < 9223372036854775808 ∧ now < (vb : Int)))   -- 9223372036854775808 = 2^63
+
+theorem timeGo_true (now : Int) (va vb : Nat) :
+    timeGo now va vb = true ↔
+      ¬ (toInt64 va < 0 ∨ now < toInt64 va) ∧ ¬ (vb ≠ certTimeInfinity ∧ (now ≥ toInt64 vb ∨ toInt64 vb < 0)) := by
+  unfold timeGo
+  by_cases hA : (toInt64 va < 0 ∨ now < toInt64 va)
+  · rw [if_pos hA]; exact ⟨fun h => absurd h (by decide), fun h => absurd hA h.1⟩
+  · rw [if_neg hA]
+    by_cases hB : (vb ≠ certTimeInfinity ∧ (now ≥ toInt64 vb ∨ toInt64 vb < 0))
+    · rw [if_pos hB]; exact ⟨fun h => absurd h (by decide), fun h => absurd hB h.2⟩
+    · rw [if_neg hB]; exact ⟨fun _ => ⟨hA, hB⟩, fun _ => rfl⟩
+
+theorem toInt64_cases (u : Nat) :
+    (u < 9223372036854775808 ∧ toInt64 u = (u : Int)) ∨
+    (¬ u < 9223372036854775808 ∧ toInt64 u = (u : Int) - 18446744073709551616) := by
+  unfold toInt64
+  by_cases h : u < 9223372036854775808
+  · exact Or.inl ⟨h, if_pos h⟩
+  · exact Or.inr ⟨h, if_neg h⟩
 
 /-- for every uint64 ValidAfter/ValidBefore and every clock value, the two tests written in CheckCert
     (with their int64 casts) decide exactly the intended window; stamps ≥ 2^63 (negative after the
     cast) are rejected, except ValidBefore = CertTimeInfinity -/
-theorem timeGo_iff (now : Int) (va vb : Nat) (ha : va < 2 ^ 64) (hb : vb < 2 ^ 64) :
+theorem timeGo_iff (now : Int) (va vb : Nat) (ha : va < 18446744073709551616) (hb : vb < 18446744073709551616) :
     timeGo now va vb = true ↔ timeSpec now va vb := by
-  unfold timeGo timeSpec toInt64 certTimeInfinity
-  by_cases h1 : va < 9223372036854775808 <;> by_cases h2 : vb < 9223372036854775808 <;>
-    by_cases h3 : vb = 18446744073709551615 <;> simp only [h1, h2, h3, ↓reduceIte] <;>
-    (split <;> (try split) <;> simp only [Bool.false_eq_true, false_iff, true_iff, not_and, not_or] <;> omega)
+  rw [timeGo_true]
+  unfold timeSpec certTimeInfinity
+  have ea := toInt64_cases va
+  have eb := toInt64_cases vb
+  generalize toInt64 va = x at *
+  generalize toInt64 vb = y at *
+  constructor
+  · intro h; refine ⟨by omega, by omega, by omega⟩
+  · intro h; refine ⟨by omega, by omega⟩
 
 example : timeGo 100 100 101 = true ∧ timeGo 100 101 200 = false ∧ timeGo 100 0 100 = false ∧
     timeGo 100 0 certTimeInfinity = true ∧ timeGo 100 (2 ^ 63) certTimeInfinity = false ∧
@@ -44,27 +69,24 @@ example : timeGo 100 100 101 = true ∧ timeGo 100 101 200 = false ∧ timeGo 10
 
 /-! ## CheckCert -/
 
-def revoked (ck : Checker) (c : Cert) : Bool :=
-  match ck.isRevoked with | some f => f c | none => false
-
 /-- `CheckCert` accepts iff: not revoked ∧ every critical option is source-address or supported ∧
     principal listed (or none listed) ∧ time rule ∧ the CA signature verifies over
     `bytesForSigning` (the re-marshalled certificate). -/
 theorem checkCert_iff (verify : PubKey → Bytes → Sig → Bool) (ck : Checker) (p : Bytes) (c : Cert) :
     checkCert verify ck p c = .accept ↔
-      revoked ck c = false ∧
+      ck.revoked c = false ∧
       (∀ kv ∈ c.critOpts, kv.1 = sourceAddress ∨ kv.1 ∈ ck.supported) ∧
       (c.principals = [] ∨ p ∈ c.principals) ∧
       timeGo ck.now c.validAfter c.validBefore = true ∧
       ∃ msg s, c.bytesForSigning = some msg ∧ c.sig = some s ∧ verify c.sigKey msg s = true := by
-  unfold checkCert revoked
+  unfold checkCert
   have ho : optsOk ck.supported c.critOpts = true ↔
       ∀ kv ∈ c.critOpts, kv.1 = sourceAddress ∨ kv.1 ∈ ck.supported := by
     simp [optsOk, List.all_eq_true]
   have hp : principalOk p c.principals = true ↔ (c.principals = [] ∨ p ∈ c.principals) := by
     simp [principalOk, List.isEmpty_iff]
   rw [← ho, ← hp]
-  cases hr : (match ck.isRevoked with | some f => f c | none => false) <;>
+  cases hr : ck.revoked c <;>
     cases h1 : optsOk ck.supported c.critOpts <;>
     cases h2 : principalOk p c.principals <;>
     cases h3 : timeGo ck.now c.validAfter c.validBefore <;>
@@ -85,7 +107,7 @@ example : ∃ (c : Cert), checkCert (fun _ _ _ => true) ⟨[], none, 5⟩ [] c =
 theorem parseCert_sig_some (o : PtOracle) (algo b : Bytes) (c : Cert) (h : parseCert o algo b = some c) :
     c.sig ≠ none := by
   unfold parseCert at h
-  repeat (split at h <;> try (exact absurd h (by simp)))
+  repeat (split at h; (· cases h))
   simp only [Option.some.injEq] at h
   subst h
   simp
